@@ -6,9 +6,15 @@ shapes, ownership, the Python type of the stored numbers, the leaf default) and 
 every ordered pair and sampled triples are compared; operands may be LAZY fibers (given by an iterator over raw elements, or produced
 by project()), whose content is read from the element list they were built from.  Every tree is judged against ITS OWN leaf default; a leaf is
 default-valued when it is numerically equal to that default (0, 0.0 and False are the same value).
+Two further producers of representations: tensors whose ranks are in the UNCOMPRESSED format with a declared shape
+(their fibers are walked densely by the library; a fiber may store every coordinate of the shape, explicit defaults
+included), and tensors FILLED after construction through the public point API (payload references updated in place).
+The content of a tensor is always read from its raw root fiber against the default the tensor was DECLARED with
+(never the default the library reports).
 """
 import copy
 import itertools
+import random
 
 from fibertree import CoordPayload, Fiber, Payload, Tensor
 
@@ -31,7 +37,14 @@ SPEC = {
              "Fiber.fromIterator over the raw elements (explicit defaults and empty sub-fibers included), or produced "
              "by project() with a coordinate-reversing / an increasing trans_fn from the mirrored / shifted tree; "
              "their content is read from the element list (spec), and each must also equal the eager fiber built from "
-             "the same elements.  Non-trivial = the family holds at least two structurally different "
+             "the same elements; (iv) UNCOMPRESSED ranks: a fourth grid sweep and a share of the families hold tensors "
+             "with a declared shape (the 2x2 grid / the family's extents, so that fibers storing EVERY coordinate "
+             "of the shape - explicit defaults included - occur next to sparse fibers of equal content) and at "
+             "least one rank in the 'U' format; (v) FILLED tensors: family members created empty and written leaf "
+             "by leaf in a shuffled order through getPayloadRef() and an in-place update of the reference (<<=, .v=, "
+             "+= from a zero default; a default-valued leaf may be left as the reference created it; empty "
+             "sub-fibers are created by a reference to the prefix), leaf defaults int and float.  "
+             "Non-trivial = the family holds at least two structurally different "
              "trees with equal non-empty content, or a pair differing in exactly one leaf; distinct = distinct case."),
     "shards": {"quick": 16, "thorough": 16},
     "min_counts": {"quick": {"evaluations": 300, "eq_checked": 20000, "isempty_checked": 1000,
@@ -39,7 +52,11 @@ SPEC = {
                              "mixed_default_pairs": 5000, "same_storage_other_default_pairs": 200,
                              "retyped_default_trees": 300, "lazy_trees": 300,
                              "lazy_trees_with_explicit_default": 100, "lazy_operand_pairs": 10000,
-                             "lazy_explicit_default_pairs": 4000, "lazy_lazy_pairs": 300}},
+                             "lazy_explicit_default_pairs": 4000, "lazy_lazy_pairs": 300,
+                             "uformat_trees": 300, "uformat_pairs": 5000,
+                             "uformat_full_fiber_with_explicit_default_pairs": 300,
+                             "filled_trees": 300, "filled_float_default_trees": 50,
+                             "float_default_trees": 300}},
     "assumptions": [
         "both sides of a comparison have the same depth; their leaf defaults may differ (each tree's content is taken "
         "against its own default: the owning rank's for an owned tree, the construction default for a free one)",
@@ -51,6 +68,11 @@ SPEC = {
         "produces), carries a declared active range, and yields its elements in ascending coordinate order; isEmpty / "
         "countValues / nonEmpty / deepcopy are not offered for lazy fibers (asserted by the library) and are not "
         "judged on them; the content of a project() result is that of its source under the coordinate map",
+        "uncompressed ('U') ranks: restriction lifted (GUARD_UFORMAT is off since the repository fix f02740e): "
+        "both sides of a comparison carry the same per-rank formats, the same declared shape and the same leaf "
+        "default, and the pruned copy / the cleared tensor of such a tree are compared by raw content (and with an "
+        "empty tensor of the same formats and shape) instead of by == with a compressed tree",
+        "a filled tensor is judged at a quiescent point (after all writes), against the default it was declared with",
     ],
 }
 
@@ -66,6 +88,28 @@ GRIDS = [
     # the same storage alphabet read under two different leaf defaults
     ("cross", 7, [None, 7, 0, 2], 0, [None, 7, 0, 2]),
 ]
+
+
+# (guard, now off; repaired by repository fix f02740e) before the repair an operand of == that sits in an uncompressed rank is
+# walked densely (iterRangeShape), and Fiber.__eq__ takes the default payloads synthesised for absent coordinates
+# as content: equal content compares UNEQUAL when the two sides differ in the format of a rank, in the declared
+# shape of an uncompressed rank (or one has none), so also x.nonEmpty() != x and a cleared tensor != an empty
+# compressed one; and with different leaf defaults on the two sides different content can compare equal.  With
+# the guard on, uncompressed trees are only compared with trees of the same formats, shape and default, and the
+# clauses "pruned copy == original" / "cleared == empty" are judged on raw content / against an empty tensor of
+# the same formats and shape.  With the guard off the full class is generated (keys ...:formats-differ,
+# nonEmpty:not-equal:tensor-U, cleared:not-equal-to-empty:tensor-U).
+GUARD_UFORMAT = False     # (the == defect on uncompressed-format trees was repaired in the repository, see known_findings)
+
+# per-rank formats of the uncompressed grid / family members (at least one 'U')
+UFMTS2 = (("C", "U"), ("U", "U"), ("U", "C"))
+
+
+def _ufmts(rng, depth):
+    while True:
+        f = [rng.choice("CU") for _ in range(depth)]
+        if "U" in f:
+            return f
 
 
 def _grid_trees(cells):
@@ -90,9 +134,12 @@ def generate(rng, tier, shard, nshards, mon):
     idx = 0     # round-robin over the selected cases, one kind of case after the other, so that every shard gets its share of each
     for g, (name, da, cells_a, db, cells_b) in enumerate(GRIDS):
         ntrees = len(_grid_trees(cells_a))
-        for own in ("free", "tensor", "lazy"):
+        for own in ("free", "tensor", "lazy", "tensor-U"):
+            if own == "tensor-U" and GUARD_UFORMAT and da != db:
+                continue    # (guard, off: see GUARD_UFORMAT)
             for i in range(ntrees):
                 if tier == "quick" and ((own == "tensor" and i % 3) or (own == "lazy" and (i // 2) % 5 != g % 5)
+                                        or (own == "tensor-U" and (i // 3) % 4 != g % 4)
                                         or (g >= 2 and (i + g) % 2)):
                     continue
                 if idx % nshards == shard:
@@ -126,7 +173,10 @@ def _leaf_values(spec):
 
 def _family(rng):
     depth = rng.choice([1, 2, 2, 3, 3])
-    default = rng.choice([0, 0, 7, -1])
+    default = rng.choice([0, 0, 7, -1, 0.0, 0.5])
+    # a family of tensors with UNCOMPRESSED ranks and a declared shape
+    ufam = rng.random() < 0.2
+    fixed = ufam and GUARD_UFORMAT      # (guard, off) one format / shape / default per family
     ext = [rng.randint(1, 4) for _ in range(depth)]
     vals = [1, 2, 3, -2, 5] + ([0] if default != 0 else [])
     cont = {}
@@ -140,7 +190,8 @@ def _family(rng):
     ptype = rng.choice([0.0, 0.0, 0.3, 1.0])
 
     def add(c, d, dirty):
-        t = _variant(rng, c, ext, d, dirty)
+        # (in an uncompressed family some members store EVERY point of the extents, explicit defaults included)
+        t = _variant(rng, c, ext, d, dirty, rng.choice([0.25, 1.0]) if ufam else 0.25)
         trees.append(_retype(rng, t, rng.choice([0.0, ptype])))
         defs.append(d)
 
@@ -148,7 +199,7 @@ def _family(rng):
         add(cont, default, rng.random() < 0.8)
     # the same content under another leaf default (no stored value equals it), or under the same default written
     # as a float
-    if rng.random() < 0.5:
+    if rng.random() < 0.5 and not fixed:
         other = [d for d in (0, 7, -1, 4, 1) if d != default and d not in cont.values()] + [float(default)]
         add(cont, rng.choice(other), rng.random() < 0.8)
     # neighbours: one leaf changed / added / removed
@@ -174,27 +225,39 @@ def _family(rng):
             add(c4, default, False)
     # the SAME storage as a member of the family, under another leaf default: usually one of the stored values
     # (those points stop being content, stored explicit defaults of the member become content)
-    for _ in range(rng.choice([0, 1, 1, 2])):
+    for _ in range(0 if fixed else rng.choice([0, 1, 1, 2])):
         k = rng.randrange(len(trees))
         stored = sorted({v for v in _leaf_values(trees[k]) if v != defs[k] and type(v) is not bool}, key=repr)
         pool = stored if (stored and rng.random() < 0.8) else [d for d in (0, 7, -1, 4) if d != defs[k]]
         trees.append(trees[k])
         defs.append(rng.choice(pool))
-    own = [rng.choice(["free", "tensor", "tensor-shape"]) for _ in trees]
+    own = [rng.choice(["free", "tensor", "tensor-shape", "tensor-filled"]) for _ in trees]
     # some members are LAZY fibers (top level given by an iterator / produced by project())
     if rng.random() < 0.5:
         for k in range(len(own)):
             if rng.random() < 0.4:
                 own[k] = rng.choice(LAZY_KINDS)
-    return {"kind": "family", "default": default, "defaults": defs, "depth": depth, "ext": ext, "trees": trees, "own": own}
+    case = {"kind": "family", "default": default, "defaults": defs, "depth": depth, "ext": ext, "trees": trees, "own": own}
+    if ufam:
+        fm, grow = _ufmts(rng, depth), rng.choice([0, 0, 1])
+        fmts, shapes = [], []
+        for k in range(len(trees)):
+            if fixed or rng.random() < 0.6:
+                own[k] = "tensor-U"
+            if not fixed and rng.random() < 0.5:
+                fm, grow = _ufmts(rng, depth), rng.choice([0, 0, 1])
+            fmts.append(list(fm) if own[k] == "tensor-U" else None)
+            shapes.append([e + grow for e in ext] if own[k] == "tensor-U" else None)
+        case["fmts"], case["shapes"] = fmts, shapes
+    return case
 
 
-def _variant(rng, cont, ext, default, dirty):
+def _variant(rng, cont, ext, default, dirty, pexp=0.25):
     depth = len(ext)
     explicit, empties = [], []
     if dirty:
         for pt in itertools.product(*[range(e) for e in ext]):
-            if pt not in cont and rng.random() < 0.25:
+            if pt not in cont and rng.random() < pexp:
                 explicit.append(pt)
         for d in range(1, depth):
             for pre in itertools.product(*[range(e) for e in ext[:d]]):
@@ -249,12 +312,56 @@ def _lazy_carries_empty(spec, kind, default):
     return any((gen.content_of_spec(p, default) == {}) if isinstance(p, list) else (p == default) for _, p in spec)
 
 
-def _build(spec, own, default, depth, ext=None, salt=0):
+_SUBFIBER = object()
+
+
+def _filled(spec, ids, default, shape, salt):
+    """A tensor created empty and FILLED through the public point API: every stored leaf of `spec` is written, in a
+    shuffled order, through the payload reference getPayloadRef(*point) returns (<<=, .v =, or += from a zero
+    default); a default-valued leaf is sometimes left exactly as the reference created it; an empty sub-fiber is
+    created by a reference to its prefix."""
+    t = Tensor(rank_ids=list(ids), shape=list(shape) if shape else None, default=default)
+    writes = []
+
+    def walk(s, pre):
+        for c, p in s:
+            if isinstance(p, list):
+                if not p:
+                    writes.append((pre + (c,), _SUBFIBER))
+                walk(p, pre + (c,))
+            else:
+                writes.append((pre + (c,), p))
+
+    walk(spec, ())
+    random.Random(salt).shuffle(writes)
+    for k, (pt, v) in enumerate(writes):
+        ref = t.getPayloadRef(*pt)
+        if v is _SUBFIBER:
+            continue
+        how = (k + salt) % 4
+        if how == 3 and v == default and type(v) is type(default):
+            continue            # the default-valued payload the reference created stays as it is
+        if how == 0 or (how == 3 and default != 0):
+            ref <<= v
+        elif how == 1:
+            ref.v = v
+        elif default == 0:
+            ref += v            # accumulation starting from the (zero) default
+        else:
+            ref <<= v
+    return t
+
+
+def _build(spec, own, default, depth, ext=None, salt=0, fmts=None, shape=None):
     if own == "free":
         return gen.fiber_from_spec(spec, default)
     if own in LAZY_KINDS:
         return _lazy(spec, _lazy_kind(spec, own, default, depth), default, salt)
     ids = gen.rank_ids_for(depth)
+    if own == "tensor-U":
+        return gen.tensor_from_spec(spec, ids, shape=shape, default=default, fmts=fmts)
+    if own == "tensor-filled":
+        return _filled(spec, ids, default, [e + 1 for e in ext] if (ext and salt % 3 == 0) else None, salt)
     shape = None
     if own == "tensor-shape" and ext:
         shape = [e + 1 + (salt % 2) for e in ext]
@@ -279,6 +386,17 @@ def _explicit_or_empty(f, default):
     return False
 
 
+def _full_explicit(spec, fmts, shape, default, level=0):
+    """Does the tree hold, in an uncompressed rank, a fiber that stores EVERY coordinate of the declared shape, at
+    least one of them with a default-valued payload (explicit default leaf / content-free sub-tree)?"""
+    if not spec:
+        return False
+    if fmts[level] == "U" and [c for c, _ in spec] == list(range(shape[level])):
+        if any((gen.content_of_spec(p, default) == {}) if isinstance(p, list) else (p == default) for _, p in spec):
+            return True
+    return any(isinstance(p, list) and _full_explicit(p, fmts, shape, default, level + 1) for _, p in spec)
+
+
 def _eq(mon, a, b, what):
     try:
         return bool(a == b)
@@ -287,10 +405,19 @@ def _eq(mon, a, b, what):
         return None
 
 
-def _unary(mon, x, default, tag):
+def _unary(mon, x, default, tag, fmts=None, shape=None):
     """isEmpty / countValues / nonEmpty / deepcopy against the content oracle."""
-    c = content(x, default)
     r = _root(x)
+    c = content(r, default)     # raw root fiber, DECLARED default
+    guarded = tag == "tensor-U" and GUARD_UFORMAT    # (guard, off: see GUARD_UFORMAT)
+    if tag == "tensor-U":
+        mon.count("uformat_trees")
+    if tag == "tensor-filled":
+        mon.count("filled_trees")
+        if isinstance(default, float):
+            mon.count("filled_float_default_trees")
+    if isinstance(default, float):
+        mon.count("float_default_trees")
     try:
         mon.count("isempty_checked")
         mon.check(r.isEmpty() == (c == {}), f"isEmpty:{tag}", f"isEmpty()={r.isEmpty()} but content has {len(c)} points")
@@ -303,7 +430,7 @@ def _unary(mon, x, default, tag):
         mon.check(cn == c, f"nonEmpty:content:{tag}", f"nonEmpty() content {cn} != original {c}")
         mon.check(not _explicit_or_empty(ne, default), f"nonEmpty:not-pruned:{tag}",
                   "nonEmpty() result still holds an explicit default or an empty sub-fiber")
-        e = _eq(mon, ne, r, "nonEmpty()==orig")
+        e = None if guarded else _eq(mon, ne, r, "nonEmpty()==orig")
         if e is not None:
             mon.check(e, f"nonEmpty:not-equal:{tag}", "nonEmpty() result does not compare equal to the original")
         dc = copy.deepcopy(x)
@@ -320,7 +447,10 @@ def _unary(mon, x, default, tag):
             mon.count("cleared_checked")
             mon.check(y.countValues() == 0 and y.getRoot().isEmpty(), f"cleared:count:{tag}",
                       f"after clear() of the root: countValues()={y.countValues()} isEmpty()={y.getRoot().isEmpty()}, the tree has no points")
-            e = _eq(mon, y, Tensor(rank_ids=x.getRankIds(), default=default), "cleared==empty")
+            empty = Tensor(rank_ids=x.getRankIds(), default=default)
+            if guarded:
+                empty = gen.tensor_from_spec([], x.getRankIds(), shape=shape, default=default, fmts=fmts)
+            e = _eq(mon, y, empty, "cleared==empty")
             if e is not None:
                 mon.check(e, f"cleared:not-equal-to-empty:{tag}", "a cleared tensor does not compare equal to an empty tensor with the same rank ids")
         # copies with and without the owner (ownership must not matter)
@@ -330,7 +460,8 @@ def _unary(mon, x, default, tag):
             ck = f"copy(preserve_owner={keep})"
             mon.check(content(cp, default) == c, f"copy:content:{tag}:{'owned' if keep else 'detached'}",
                       f"{ck} holds content {content(cp, default)} != original {c}")
-            e = _eq(mon, cp, r, ck + "==orig")
+            # (guarded: the sub-fibers a DETACHED copy synthesises for absent coordinates are compressed)
+            e = None if (guarded and not keep) else _eq(mon, cp, r, ck + "==orig")
             if e is not None:
                 mon.check(e and _eq(mon, r, cp, "orig==" + ck), f"copy:not-equal:{tag}:{'owned' if keep else 'detached'}",
                           f"{ck} does not compare equal to its original (default {default})")
@@ -408,28 +539,45 @@ def run_case(case, mon):
                 mon.nontrivial()
             mon.state(("grid", name, i, own))
             return
-        objs_a = [_build(t, own, da, 2, salt=k) for k, t in enumerate(trees_a)]
-        objs_b = [_build(t, own, db, 2, salt=k) for k, t in enumerate(trees_b)] if two_sided else objs_a
-        conts_a = [content(o, da) for o in objs_a]
-        conts_b = [content(o, db) for o in objs_b] if two_sided else conts_a
+        # uncompressed sweep: shape = the 2x2 grid itself (a row holding both cells is a fully stored fiber), at
+        # least one rank in the 'U' format
+        ushape = [2, 2]
+        if own != "tensor-U":
+            fm_a = fm_b = [None] * len(trees_a)
+        elif GUARD_UFORMAT:     # (guard, off) one format assignment per case
+            fm_a = fm_b = [list(UFMTS2[i % 3])] * len(trees_a)
+        else:
+            fm_a = [list(UFMTS2[i % 3])] * len(trees_a)
+            fm_b = [list(UFMTS2[k % 3]) for k in range(len(trees_b))]
+            two_sided = True
+        objs_a = [_build(t, own, da, 2, salt=k, fmts=fm_a[k], shape=ushape) for k, t in enumerate(trees_a)]
+        objs_b = [_build(t, own, db, 2, salt=k, fmts=fm_b[k], shape=ushape) for k, t in enumerate(trees_b)] if two_sided else objs_a
+        conts_a = [content(_root(o), da) for o in objs_a]
+        conts_b = [content(_root(o), db) for o in objs_b] if two_sided else conts_a
         a = objs_a[i]
-        _unary(mon, a, da, own)
+        _unary(mon, a, da, own, fm_a[i], ushape)
         if _retyped_default(trees_a[i], da):
             mon.count("retyped_default_trees")
         if two_sided:
-            _unary(mon, objs_b[i], db, own)
+            _unary(mon, objs_b[i], db, own, fm_b[i], ushape)
             if _retyped_default(trees_b[i], db):
                 mon.count("retyped_default_trees")
         before = snap(a)
         sfx = _pair_tag(da, db)
+        full_a = own == "tensor-U" and _full_explicit(trees_a[i], fm_a[i], ushape, da)
         for j, b in enumerate(objs_b):
             want = conts_a[i] == conts_b[j]
+            if own == "tensor-U":
+                sfx = _pair_tag(da, db) + ("" if fm_a[i] == fm_b[j] else ":formats-differ")
+                mon.count("uformat_pairs", 2)
+                if want and trees_a[i] != trees_b[j] and (full_a or _full_explicit(trees_b[j], fm_b[j], ushape, db)):
+                    mon.count("uformat_full_fiber_with_explicit_default_pairs", 2)
             for x, y, d in ((a, b, "ab"), (b, a, "ba")):
                 got = _eq(mon, x, y, "==")
                 if got is None:
                     continue
                 mon.count("eq_checked")
-                if sfx:
+                if _pair_tag(da, db):
                     mon.count("mixed_default_pairs")
                     if trees_a[i] == trees_b[j] and not want:
                         mon.count("same_storage_other_default_pairs")
@@ -446,9 +594,14 @@ def run_case(case, mon):
     trees = case["trees"]
     defs = case.get("defaults") or [default] * len(trees)
     lkinds = [_lazy_kind(t, o, d, depth) if o in LAZY_KINDS else None for t, o, d in zip(trees, case["own"], defs)]
-    objs = [_build(t, o, d, depth, case.get("ext"), k) for k, (t, o, d) in enumerate(zip(trees, case["own"], defs))]
-    conts = [_unary_lazy(mon, o, t, lk, d) if lk else _unary(mon, o, d, "tensor" if isinstance(o, Tensor) else "free")
-             for o, t, lk, d in zip(objs, trees, lkinds, defs)]
+    fmts = case.get("fmts") or [None] * len(trees)
+    shapes = case.get("shapes") or [None] * len(trees)
+    owns = case["own"]
+    objs = [_build(t, o, d, depth, case.get("ext"), k, fmts[k], shapes[k]) for k, (t, o, d) in enumerate(zip(trees, owns, defs))]
+    tags = [o if o in ("tensor-U", "tensor-filled") else ("tensor" if isinstance(x, Tensor) else "free") for o, x in zip(owns, objs)]
+    conts = [_unary_lazy(mon, o, t, lk, d) if lk else _unary(mon, o, d, tg, fm, sh)
+             for o, t, lk, d, tg, fm, sh in zip(objs, trees, lkinds, defs, tags, fmts, shapes)]
+    full = [bool(fm) and _full_explicit(t, fm, sh, d) for t, fm, sh, d in zip(trees, fmts, shapes, defs)]
     carries = [bool(lk) and _lazy_carries_empty(t, lk, d) for t, lk, d in zip(trees, lkinds, defs)]
     for t, d in zip(trees, defs):
         if _retyped_default(t, d):
@@ -480,6 +633,12 @@ def run_case(case, mon):
                     mon.count("lazy_explicit_default_pairs")
                 sfx = ":lazy" + sfx
                 how = f" [{lkinds[i] or 'eager'} == {lkinds[j] or 'eager'}]"
+            if fmts[i] or fmts[j]:
+                mon.count("uformat_pairs")
+                if want and trees[i] != trees[j] and (full[i] or full[j]):
+                    mon.count("uformat_full_fiber_with_explicit_default_pairs")
+                sfx = ":uformat" + sfx + ("" if (fmts[i], shapes[i]) == (fmts[j], shapes[j]) else ":formats-differ")
+                how += f" [formats {fmts[i]} shape {shapes[i]} == formats {fmts[j]} shape {shapes[j]}]"
             kind = "equal-content-compares-unequal" if want else "different-content-compares-equal"
             mon.check(got == want, f"eq:{kind}:depth{depth if depth < 3 else 3}{sfx}",
                       f"trees {trees[i]} (default {defs[i]!r}) and {trees[j]} (default {defs[j]!r}){how}: "
